@@ -322,6 +322,27 @@ CHECKS = {
               "calculators; symfc, alm, seekpath, pypolymlp absent (phonopy-load's default solver checked at the decision "
               "level). Plotting, --symmetry, anime/modulation/irreps execution not compared."),
         design="5/C18 and 11.2"),
+    "C07": dict(
+        text=("SymOps/Symmetrize.tla transcribe every step of phonopy's force-constant symmetrisers as transformations of "
+              "exact rational arrays: the full and compact C kernels with the done flags and the self-pair special case, the "
+              "Python fall-back, compact_fc_to_full_fc / full_fc_to_compact_fc, get_nsym_list_and_s2pp, "
+              "set_tensor_symmetry_PJ, the transposition kernel and the drift display. The requirement is stated from the "
+              "definitions (translational invariance, index-permutation symmetry, periodicity, space-group invariance, the "
+              "array a compact array stands for, the transposed array). TLC checks on abstract tori (1-3 atoms, 1-8 cells, "
+              "even multiplicities with Z2, Z4, Z2^2, Z2^3) that symmetric input is fixed, the invariances are imposed, a "
+              "second application changes nothing, compact equals full on the expanded array, transposition is "
+              "transposition, and full->compact->full and compact->full->compact are identities - exhaustively over all "
+              "small arrays for 1-D and 2-D tensors and completely by linearity for the other systems. The same invariants are "
+              "evaluated by TLC on the exactly projected results of thousands of real calls (Phonopy API and module "
+              "functions, levels 1-3, 18 real crystals incl. primitive_matrix F and I) with the tables recorded from the real "
+              "Primitive and validated as a free commutative group action; real results must equal the step machine's. "
+              "Histories of API calls are model-checked against a full-layout twin (SymSession.tla) and TLC-generated "
+              "histories are replayed on a real Phonopy object with exact comparison after every call."),
+        note=("Trusted: TLC, numpy, the rounding of real outputs to rationals with denominator 2(2 ns^2)^level (residual <= "
+              "1e-9 enforced, observed 2e-15; bit-exact for power-of-two supercell sizes). Bounds: ns <= 8, integer inputs "
+              "-2..2 and unit arrays; levels limited per system size to stay within TLC's 32-bit integers; space-group routes "
+              "on axis-aligned cubic/tetragonal lattices only; the step from basis cases to all arrays relies on linearity."),
+        design="5/C07 and 11.2"),
 }
 
 NOT_BUILT = "check under construction in this round; not yet claimed"
